@@ -1,5 +1,6 @@
 import TwistedProps.C44.Roundtrip
 import TwistedProps.C44.Gen
+import TwistedProps.C44.History
 /-!
 C44 — Banana encoding round-trips and enforces its limits.
 
@@ -22,6 +23,17 @@ Shape of the proof:
   * `batch` (in `C44/Roundtrip.lean`) — structural induction over the expression: the loop on
     `encode e ++ tail` hands `listify e` to `gotItem` and continues on `tail`.
   * `decode_encode` — the two combined, for every `e` with `inLimits` and every dialect.
+  * histories (`C44/Session.lean`, `C44/History.lean`; model `TwistedModel/Spread/BananaConn.lean`): the property is about a
+    *connection*, which is used again and again.  `_encode` is transcribed a second time WITH the fragments it has already
+    written when it raises (`encodeP`; `encode_partial_output_agrees`), `sendEncoded` with its fresh scratch stream
+    (`send_refused_leaves_no_trace`, `send_accepted`), and a history is any list of `Op`s on two connected Bananas (`Pair`):
+    `sendEncoded` on either side (accepted, refused at the top, refused part-way through a structure), deliveries of any
+    number of pending bytes in either direction (empty ones included), optionally the second Banana answering every expression
+    from inside `expressionReceived`.  Invariant (`LinkInv`): the receiver is in the state a fresh decoder reaches on SOME cutting
+    of a prefix of the stream of the accepted values; `history_safe` (every moment), `history_roundtrip` (after the flush),
+    `decode_encode_many` (several expressions in one stream), `history_echo` (the answering Banana).  `mod_*`: the module-level
+    helpers and their shared instance.  `decoded_within_limits` (`C44/Delivered.lean`): whatever the stream, nothing outside the
+    limits is ever delivered.
 
 Hypotheses, all decidable and all forced by the code:
   * `inLimits c.lim e` — the property's own precondition (`encode_accepts_iff` shows it is exactly
@@ -215,6 +227,184 @@ example : inLimits 64 (.bytes (List.replicate 655360 0)) = true ∧
     inLimits 64 (.seq true [.bytes (List.replicate 655361 0)]) = false := by
   simp only [inLimits, allInLimits, List.length_replicate, SIZE_LIMIT]
   decide
+
+/-! ## histories: one connection used again and again, values refused in between -/
+
+/-- `_encode` transcribed WITH the fragments it has written when it raises (`encodeP`) agrees with `encode`: same acceptance, same
+    bytes on success, same exception on refusal. -/
+theorem encode_partial_output_agrees (c : Cfg) (e : Expr) :
+    (∀ bs, encode c e = .ok bs → encodeP c e = (bs, none)) ∧
+    (∀ er, encode c e = .error er → (encodeP c e).2 = some er) := by
+  have := encodeP_agrees c e
+  constructor
+  · intro bs h; rw [h] at this; exact this
+  · intro er h; rw [h] at this; exact this
+
+set_option exponentiation.threshold 512 in
+/-- non-vacuity: a value refused part-way through — `[1, 2**448]` — HAS produced output when `_encode` raises
+    (the list header `02 80` and the element `01 81`) … -/
+example : encodeP ⟨false, 64⟩ (.seq false [.int 1, .int (2 ^ 448)]) = ([2, 0x80, 1, 0x81], some .banana) := by
+  simp [encodeP, encodeAllP, int2b128, digits, LIST, INT, largestLongInt, smallestLongInt, largestInt, smallestInt, SIZE_LIMIT]
+
+/-- … **and `sendEncoded` leaves no trace of it**: a value outside the limits (at any depth) raises `BananaError`, the transport
+    holds exactly what it held before, and there is no other state (`sendEncoded` is a function of the transport content and the
+    value only). -/
+theorem send_refused_leaves_no_trace (c : Cfg) (wire : Bytes) (e : Expr) (h : inLimits c.lim e = false) :
+    sendEncoded c wire e = (wire, some .banana) :=
+  sendEncoded_error ((encode_spec c e).2 h) wire
+
+/-- a value within the limits: exactly its encoding is appended to the transport, whatever was sent or refused before -/
+theorem send_accepted (c : Cfg) (wire : Bytes) (e : Expr) (h : inLimits c.lim e = true) :
+    ∃ bs, encode c e = .ok bs ∧ sendEncoded c wire e = (wire ++ bs, none) := by
+  obtain ⟨bs, hbs⟩ := (encode_spec c e).1 h
+  exact ⟨bs, hbs, sendEncoded_ok hbs wire⟩
+
+set_option exponentiation.threshold 512 in
+example : sendEncoded ⟨false, 64⟩ [9, 0x81] (.seq false [.int 1, .int (2 ^ 448)]) = ([9, 0x81], some .banana) :=
+  send_refused_leaves_no_trace _ _ _ (by decide)
+
+/-- in a history on two connected Bananas, a `sendEncoded` raises `BananaError` exactly for a value outside the limits, and then
+    the whole pair (both transports, both decoders) is as it was -/
+theorem step_send_outcome (c : Cfg) (echo : Bool) (p : Pair) (side : Bool) (obj : Expr) :
+    (p.step c echo (.send side obj)).2 = (if inLimits c.lim obj = true then none else some .banana) ∧
+    (inLimits c.lim obj = false → (p.step c echo (.send side obj)).1 = p) := by
+  cases h : inLimits c.lim obj with
+  | false => cases side <;> simp [Pair.step, Link.send_refused h]
+  | true => cases side <;> simp [Pair.step, Link.send_ok h]
+
+/-- **several expressions, one stream, any cutting**: the encodings of any values within the limits, concatenated and cut into
+    deliveries in any way (empty ones included), are delivered as exactly those values (list-ified), in order -/
+theorem decode_encode_many (c : Cfg) (hc : 3 ≤ c.lim) (es : List Expr) (hes : ∀ e ∈ es, inLimits c.lim e = true)
+    (chunks : List Bytes) (h : chunks.flatten = wireOf c es) :
+    feedAll c State.init chunks = { st := State.init, outs := es.map listify, err := none } := by
+  have hb := batchMany c hc [] es hes
+  rw [List.append_nil, loop_nil] at hb
+  obtain ⟨a1, a2, a3⟩ := feedAll_eq_loop c chunks State.init (stuck_init c)
+  simp only [show State.init.stack = [] from rfl, show State.init.buffer = [] from rfl, List.nil_append, h, hb] at a1 a2 a3
+  exact Result.ext' (a3 (by simp [R0])) (by simpa [R0] using a1) (by simpa [R0] using a2)
+
+/-- **At every moment of any history** (any sequence of `sendEncoded` calls on either side — accepted, refused at the top, refused
+    part-way through a structure — and deliveries of any sizes in either direction, with or without the second Banana answering
+    from inside `expressionReceived`): no `dataReceived` has raised, and each side has been handed a prefix of what its peer's
+    `sendEncoded` accepted, list-ified, in order.  For A → B that is exactly the in-limit values A was asked to send. -/
+theorem history_safe (c : Cfg) (hc : 3 ≤ c.lim) (echo : Bool) (ops : List Op) :
+    let p := (Pair.run c echo Pair.init ops).1
+    p.ab.rerr = none ∧ p.ab.got <+: (accepted c (sendsOf false ops)).map listify ∧
+    p.ba.rerr = none ∧ p.ba.got <+: p.ba.log.map listify := by
+  intro p
+  have hinv : PairInv c p := PairInv.run echo ops (PairInv.init c)
+  have hl : p.ab.log = accepted c (sendsOf false ops) := by
+    show (Pair.run c echo Pair.init ops).1.ab.log = _
+    simpa [Pair.init, Link.init] using run_log_ab c echo ops Pair.init
+  obtain ⟨s1, s2, _⟩ := hinv.ab.sound hc
+  obtain ⟨t1, t2, _⟩ := hinv.ba.sound hc
+  rw [hl] at s2
+  exact ⟨s1, s2, t1, t2⟩
+
+/-- **Round trip after any history (headline for histories).**  Same histories; once everything written has been delivered:
+    B has been handed exactly the in-limit values A was asked to send — each as the equal structure, tuples as lists, in order,
+    nothing from any refused value — and A exactly what B's `sendEncoded` accepted (without echo: the in-limit values B was asked
+    to send); nothing was raised by a decoder, and both decoders are back in their initial state. -/
+theorem history_roundtrip (c : Cfg) (hc : 3 ≤ c.lim) (echo : Bool) (ops : List Op) :
+    let p := ((Pair.run c echo Pair.init ops).1).flush c echo
+    p.ab.got = (accepted c (sendsOf false ops)).map listify ∧ p.ab.rerr = none ∧ p.ab.rx = State.init ∧
+    p.ba.got = p.ba.log.map listify ∧ p.ba.rerr = none ∧ p.ba.rx = State.init ∧
+    (echo = false → p.ba.log = accepted c (sendsOf true ops)) := by
+  intro p
+  have hrun : PairInv c (Pair.run c echo Pair.init ops).1 := PairInv.run echo ops (PairInv.init c)
+  have hinv : PairInv c p := hrun.flush echo
+  obtain ⟨pa, pb⟩ := flush_pending c hc echo hrun
+  have hl : p.ab.log = accepted c (sendsOf false ops) := by
+    show ((Pair.run c echo Pair.init ops).1.flush c echo).ab.log = _
+    rw [flush_log_ab]
+    simpa [Pair.init, Link.init] using run_log_ab c echo ops Pair.init
+  obtain ⟨s1, _, s3⟩ := hinv.ab.sound hc
+  obtain ⟨t1, _, t3⟩ := hinv.ba.sound hc
+  obtain ⟨s4, s5⟩ := s3 pa
+  obtain ⟨t4, t5⟩ := t3 pb
+  rw [hl] at s4
+  refine ⟨s4, s1, s5, t4, t1, t5, ?_⟩
+  intro he
+  subst he
+  show ((Pair.run c false Pair.init ops).1.flush c false).ba.log = _
+  rw [flush_log_ba]
+  simpa [Pair.init, Link.init] using run_log_ba c ops Pair.init
+
+/-- an integer just beyond the range of the default prefix limit -/
+def tooBig : Expr := .int (2 ^ 448)
+
+/-- non-vacuity: A is refused `[1, b"x", 2**448]` (after `_encode` wrote `03 80 01 81 01 82 78`), then sends `(7,)`, three bytes
+    are delivered, B is refused `[[<unsupported object>]]` and sends `-1`: B receives `[7]` and only that, A receives `-1` -/
+example :
+    let ops := [Op.send false (.seq false [.int 1, .bytes [0x78], tooBig]), .send false (.seq true [.int 7]),
+                .deliver false 3, .send true (.seq false [.seq false [.other]]), .send true (.int (-1)), .deliver true 0]
+    let p := ((Pair.run ⟨true, 64⟩ false Pair.init ops).1).flush ⟨true, 64⟩ false
+    p.ab.got = [.seq false [.int 7]] ∧ p.ba.got = [.int (-1)] := by
+  intro ops p
+  obtain ⟨h1, _, _, h4, _, _, h7⟩ := history_roundtrip ⟨true, 64⟩ (by decide) false ops
+  have k1 : inLimits 64 (.seq false [.int 1, .bytes [0x78], tooBig]) = false := by decide
+  have k2 : inLimits 64 (.seq true [.int 7]) = true := by decide
+  have k3 : inLimits 64 (.seq false [.seq false [.other]]) = false := by decide
+  have k4 : inLimits 64 (.int (-1)) = true := by decide
+  have e1 : accepted ⟨true, 64⟩ (sendsOf false ops) = [.seq true [.int 7]] := by
+    simp [ops, accepted, sendsOf, List.filter, k1, k2]
+  have e2 : accepted ⟨true, 64⟩ (sendsOf true ops) = [.int (-1)] := by
+    simp [ops, accepted, sendsOf, List.filter, k3, k4]
+  rw [e1] at h1
+  rw [h7 rfl, e2] at h4
+  exact ⟨by simpa [listify, listify.listifyAll] using h1, by simpa [listify] using h4⟩
+
+/-- **The echoing Banana.**  When B answers every expression it receives by `sendEncoded` from inside `expressionReceived`
+    (re-entrantly from `dataReceived`), none of those answers is ever refused, and what B's `sendEncoded` accepted over the whole
+    history is an interleaving of the in-limit values B was asked to send itself and of everything B received — which, by
+    `history_roundtrip`, is what A ends up with, list-ified. -/
+theorem history_echo (c : Cfg) (ops : List Op) :
+    let p := ((Pair.run c true Pair.init ops).1).flush c true
+    Merge (accepted c (sendsOf true ops)) p.ab.got p.ba.log := by
+  intro p
+  have hrun : PairInv c (Pair.run c true Pair.init ops).1 := PairInv.run true ops (PairInv.init c)
+  have hm := run_merge ops (PairInv.init c) (x := []) (by simpa [Pair.init, Link.init] using Merge.nil)
+  simpa using flush_merge hrun hm
+
+/-- **The decoder never hands over a value outside the limits** — whatever the stream (valid or not), however it is cut, up to
+    and including the delivery that raises: every integer is within `±(2^(7·prefixLimit) − 1)`, every byte string and every
+    list (at any depth) within `SIZE_LIMIT`.  (Hence everything received can be sent again.) -/
+theorem decoded_within_limits (c : Cfg) (chunks : List Bytes) :
+    ∀ o ∈ (feedAll c State.init chunks).outs, inLimits c.lim o = true :=
+  (feedAll_ok c chunks State.init (by simp [StackOk, State.init])).2
+
+set_option exponentiation.threshold 512 in
+/-- non-vacuity: a list of one 2-digit integer, cut in two, IS delivered (and is within the limits) -/
+example : (feedAll ⟨false, 64⟩ State.init [[1, 0x80, 0x7f], [0x7f, 0x81]]).outs = [.seq false [.int 16383]] := by
+  have := decode_of_encode ⟨false, 64⟩ (by decide) (.seq false [.int 16383]) [[1, 0x80, 0x7f], [0x7f, 0x81]]
+    (by simp [encode, encodeAll, int2b128, digits, LIST, INT, largestLongInt, smallestLongInt, largestInt, smallestInt,
+      SIZE_LIMIT])
+  simp [this, listify, listify.listifyAll]
+
+/-! ## the module-level helpers `banana.encode` / `banana.decode` (one shared instance) -/
+
+/-- `banana.decode` leaves the shared instance in its initial state, whatever it was given and whether or not it raised -/
+theorem mod_decode_resets (s : State) (st : Bytes) : (modDecode s st).1 = State.init := rfl
+
+/-- `banana.encode` refuses exactly the values outside the limits (and, like `sendEncoded`, keeps nothing of them) -/
+theorem mod_encode_refuses (e : Expr) (h : inLimits 64 e = false) : modEncode e = .error .banana := by
+  simp [modEncode, send_refused_leaves_no_trace modCfg [] e h]
+
+/-- **`banana.decode(banana.encode(v)) == v` after any history of the helpers**: whatever byte strings `banana.decode` was given
+    before (truncated, refused, several expressions, junk) and whatever values `banana.encode` was given (accepted or refused) -/
+theorem mod_roundtrip_after_history (raws : List Bytes) (e : Expr) (h : inLimits 64 e = true) :
+    ∃ bs, modEncode e = .ok bs ∧
+      modDecode (raws.foldl (fun s x => (modDecode s x).1) State.init) bs = (State.init, .value (listify e)) := by
+  obtain ⟨bs, hbs, hsend⟩ := send_accepted modCfg [] e h
+  have hs : raws.foldl (fun s x => (modDecode s x).1) State.init = State.init := by
+    induction raws with
+    | nil => rfl
+    | cons x xs ih => simpa [List.foldl_cons, mod_decode_resets] using ih
+  refine ⟨bs, by simp [modEncode, hsend], ?_⟩
+  rw [hs]
+  have := decode_of_encode modCfg (by decide) e [bs] (by simpa using hbs)
+  rw [feedAll_single] at this
+  simp [modDecode, this]
 
 /-! ## refusals when decoding -/
 
